@@ -48,7 +48,7 @@ func (t *Text) Draw(ctx vxfw.DrawContext) (vxfw.Surface, error) {
 	var row uint16
 	for scanner.Scan() {
 		var col uint16
-		if row > ctx.Max.Height {
+		if row >= ctx.Max.Height {
 			return s, nil
 		}
 		chars := ctx.Characters(scanner.Text())
@@ -96,7 +96,7 @@ func (t *Text) drawSoftwrap(ctx vxfw.DrawContext) (vxfw.Surface, error) {
 	var row uint16
 	for scanner.Scan(ctx) {
 		var col uint16
-		if row > ctx.Max.Height {
+		if row >= ctx.Max.Height {
 			return s, nil
 		}
 		chars := ctx.Characters(scanner.Text())
@@ -124,7 +124,7 @@ func (t *Text) findContainerSize(ctx vxfw.DrawContext) vxfw.Size {
 	if t.Softwrap {
 		scanner := NewSoftwrapScanner(t.Content, ctx.Max.Width)
 		for scanner.Scan(ctx) {
-			if size.Height > ctx.Max.Height {
+			if size.Height >= ctx.Max.Height {
 				return size
 			}
 			size.Height += 1
@@ -145,7 +145,7 @@ func (t *Text) findContainerSize(ctx vxfw.DrawContext) vxfw.Size {
 	}
 	scanner := bufio.NewScanner(strings.NewReader(t.Content))
 	for scanner.Scan() {
-		if size.Height > ctx.Max.Height {
+		if size.Height >= ctx.Max.Height {
 			return size
 		}
 		size.Height += 1
